@@ -3,7 +3,9 @@ from __future__ import annotations
 
 import ast
 
+from ..astutil import call_name
 from ..frontend import AnalysisError, norm
+from ..modelinterp import Budget, Interp, Sym, TypeV, UNKNOWN
 from ..provenance import Provenance, Term
 from ..report import Ctx
 from .common import REPRESENTATION
@@ -35,8 +37,87 @@ PERMIT_STORE = {
 }
 
 
+def _extension_model(ctx: Ctx, f, site) -> None:
+    """C07.R3: the permitted draw is an *extension of the genotype*: interpreted on every small gene table (key missing,
+    key present with 0 / 1 / 2 genes; position 0 / 1), the reading function leaves the gene list of the type at least
+    position+1 long, returns the gene stored at that position, keeps the genes that were there, and draws exactly the
+    missing ones - so a second read of the same position draws nothing and returns the same gene."""
+    K, OTHER = TypeV("class", "K"), TypeV("class", "Other")
+    p = f.params
+    if len(p) < 3 or f.cls is None:
+        ctx.ob("C07.R3", f, f.node, f"{f.qualname}: shape", None, "the permitted extension site is not a method (type, position)")
+        return
+    dna_attr = None
+    for a in ast.walk(f.node):
+        if isinstance(a, ast.Attribute) and isinstance(a.value, ast.Name) and a.value.id == "self" and a.attr != site:
+            k = f.cls.class_attrs.get(a.attr)
+            if k is not None and "dict" in norm(k):
+                dna_attr = a.attr
+    if dna_attr is None:
+        ctx.ob("C07.R3", f, f.node, f"{f.qualname}: gene table", None, "no dict-typed gene table attribute found on the genotype class")
+        return
+    for present in (None, 0, 1, 2):
+        for n in (0, 1):
+            genes = [Sym(f"g{i}") for i in range(present or 0)]
+            table = {repr(OTHER): [Sym("o0")]}     # the interpreter keys dicts by the printed form of a type
+            if present is not None:
+                table[repr(K)] = list(genes)
+            state = {"k": 0}
+
+            def call_model(it, call, env, args, kwargs, state=state):
+                if call_name(call) in ("randint", "random_int") and isinstance(call.func, ast.Attribute):
+                    state["k"] += 1
+                    return Sym(f"drawn{state['k']}")
+                return None
+
+            it = Interp(ctx.prog, f.cls, lambda it_, e, env_: None, call_model, max_depth=4, max_traces=8)
+            it.on_start = lambda state=state: state.update(k=0)
+            it.strict_index = True
+            it.while_cap = 6
+            env = {"self": Sym("self"), f"self.{site}": Sym("stream"), f"self.{dna_attr}": table, p[1]: K, p[2]: n}
+            construct = f"{f.qualname}: gene table {'without the key' if present is None else f'with {present} gene(s)'}, position {n}"
+            try:
+                runs = it.run(f, env)
+            except Budget:
+                ctx.ob("C07.R3", f, f.node, construct, None, "model budget exceeded")
+                continue
+            ok, why = True, ""
+            for (trace, rv, notes), env_after in zip(runs, it.envs):
+                after = env_after.get(f"self.{dna_attr}")
+                lst = after.get(repr(K)) if isinstance(after, dict) else None
+                raised = [e for e in trace if e.kind == "raise"]
+                need = max(0, n + 1 - (present or 0))
+                if notes or rv is UNKNOWN and not raised:
+                    ok, why = None, f"not interpretable: {notes[:2]}"
+                elif raised:
+                    ok, why = False, f"the read raises {raised[0].name}"
+                elif not isinstance(lst, list) or len(lst) <= n:
+                    ok, why = False, (f"after the read the genotype holds {len(lst) if isinstance(lst, list) else 'no'} gene(s) for the type: "
+                                      f"the {need} value(s) drawn from the shared stream were not stored, so mapping the same genotype "
+                                      f"again draws again and can give another program")
+                elif lst[:len(genes)] != genes:
+                    ok, why = False, "the genes already stored for the type were changed by the read"
+                elif rv is not lst[n] and rv != lst[n]:
+                    ok, why = False, f"the read returns {rv!r}, not the gene stored at the position ({lst[n]!r})"
+                elif len(lst) != max(len(genes), n + 1):
+                    ok, why = False, f"the read extends the gene list to {len(lst)} entries; {max(len(genes), n + 1)} are needed"
+                elif after.get(repr(OTHER)) != [Sym("o0")]:
+                    ok, why = False, "the read changes the genes of another type"
+                if ok is not True:
+                    break
+            ctx.ob("C07.R3", f, f.node, construct, ok, why or "list extended in place, stored gene returned, drawn = missing")
+
+
 def run(ctx: Ctx) -> None:
     prog, res = ctx.prog, ctx.res
+    ctx.rule("C07.R3", "the permitted on-demand extension stores what it draws in the genotype and returns the stored gene")
+    for (entry, site_fn, src), _why in PERMIT_DRAW.items():
+        cls_name, meth = site_fn.split(".")
+        cands = [g for g in prog.functions.values() if g.cls is not None and g.cls.name == cls_name and g.name == meth]
+        if not cands:
+            raise AnalysisError(f"anchor function missing: {site_fn} (the permitted extension site)")
+        for g in cands:
+            _extension_model(ctx, g, src.split(".")[-1])
     ctx.rule("C07.R1", "every random draw reachable from a mapping comes from a genotype-backed source (or the permitted extension)")
     ctx.rule("C07.R2", "a mapping writes only to objects it created itself (no state that outlives the mapping)")
     entries = [f for f in prog.implementations(REPRESENTATION, "genotype_to_phenotype")
